@@ -134,20 +134,82 @@ def _send_signal_passes_arg(init):
             and len(params) == 2 and calls[0].args[0].id == params[1])
 
 
+def _quiet(fn, default=False):
+    """TOTAL extraction: a shape the extractor does not recognise is reported as `default` (fail-closed: the
+    method is then simply not in `guardedMethods` and `cfg_good` breaks) instead of skipping the whole fact"""
+    try:
+        return fn()
+    except (NotRecognised, AssertionError, AttributeError, IndexError, KeyError, TypeError, ValueError):
+        return default
+
+
 def _guarded_methods(init):
+    """every method is looked at on its own: one unrecognised method does not hide the others"""
     out = []
-    ss = _find_method(init, "Process", "_send_signal")
-    if _guarded(ss, "os.kill"):
-        if _send_signal_passes_arg(init):
+    if _quiet(lambda: _guarded(_find_method(init, "Process", "_send_signal"), "os.kill")):
+        if _quiet(lambda: _send_signal_passes_arg(init)):
             out.append("send_signal")
         for m in SIGNAL_METHODS:
-            _signal_of(init, m)  # routes through _send_signal, or NotRecognised
-            out.append(m)
+            if _quiet(lambda: bool(_signal_of(init, m))):     # routes through _send_signal exactly once
+                out.append(m)
     for pub, plat in SETTERS.items():
-        if _guarded(_find_method(init, "Process", pub), "self._proc." + plat):
+        if _quiet(lambda: _guarded(_find_method(init, "Process", pub), "self._proc." + plat)):
             out.append(pub)
-    if _guarded(_find_method(init, "Process", "ppid"), "self._proc.ppid"):
+    if _quiet(lambda: _guarded(_find_method(init, "Process", "ppid"), "self._proc.ppid")):
         out.append("ppid")
+    return out
+
+
+def _window_calls(init):
+    """calls `_send_signal` makes AFTER the reuse guard and BEFORE `os.kill` (the check-then-kill window the model
+    treats as atomic): dotted names, in source order; a refusal branch (`if …: raise …`) does not count.  [] on HEAD:
+    only attribute loads (`self.pid, self._ppid, self._name`) sit in the window."""
+    fn = _find_method(init, "Process", "_send_signal")
+    out = []
+
+    def scan(stmts, seen):
+        for st in stmts:
+            if _is_guard_stmt(st):
+                seen = True
+                continue
+            if not seen:
+                if isinstance(st, (ast.If, ast.Try, ast.With, ast.For, ast.While)) and any(_is_guard_stmt(x) for x in ast.walk(st)):
+                    raise NotRecognised("_send_signal: the guard is not a top-level statement")
+                continue
+            if _has_call(st, "os.kill"):
+                if isinstance(st, ast.Try):
+                    return scan(st.body, True)
+                for n in ast.walk(st):
+                    if isinstance(n, ast.Call) and extract.dotted(n.func) != "os.kill":
+                        out.append(extract.dotted(n.func))
+                return True
+            if isinstance(st, ast.If) and not st.orelse and isinstance(st.body[-1], ast.Raise):
+                out.extend(extract.dotted(n.func) for n in ast.walk(st.test) if isinstance(n, ast.Call))
+                continue
+            out.extend(extract.dotted(n.func) for n in ast.walk(st) if isinstance(n, ast.Call))
+        return seen
+    scan(fn.body, False)
+    if not _has_call(fn, "os.kill"):
+        raise NotRecognised("_send_signal: no os.kill")
+    return out
+
+
+NATIVE = {"nice_set": "setpriority", "ionice_set": "proc_ioprio_set", "cpu_affinity_set": "proc_cpu_affinity_set",
+          "rlimit": "prlimit"}
+
+
+def _native_pid_args(plat):
+    """for every platform setter: the first argument (the PID) of EVERY call site of its native entry point, in source
+    order — `self.pid` exactly once per site on HEAD (rlimit has a get and a set site)"""
+    out = []
+    for meth, native in NATIVE.items():
+        fn = _quiet(lambda: _find_method(plat, "Process", meth), None)
+        sites = []
+        if fn is not None:
+            for n in ast.walk(fn):
+                if isinstance(n, ast.Call) and extract.dotted(n.func).split(".")[-1] == native:
+                    sites.append((n.lineno, n.col_offset, ast.unparse(n.args[0]) if n.args else "<none>"))
+        out.append((meth, [x[2] for x in sorted(sites)]))
     return out
 
 
@@ -220,22 +282,88 @@ def _boot_write_once(plat):
                 return True
             n = p
         return False
-    if any(under_falsy_test(w) for w in writes):
-        # `if not BOOT_TIME:` also rewrites a cached 0.0 — same thing under the btime != 0 hypothesis,
-        # but not the shape the model's flag describes: leave the fact to the baseline + correspondence
-        raise NotRecognised("BOOT_TIME is written under `if not BOOT_TIME`")
+    # (`if not BOOT_TIME:` rewrites a cached 0.0: not the `is None` guard the model's flag describes → false)
     return all(under_is_none(w) for w in writes)
 
 
-def _create_uses_cache(plat):
+def _boot_stores_elsewhere(snap):
+    """every store to `BOOT_TIME` anywhere in the package OUTSIDE `_pslinux.boot_time()` and the module-level
+    initialisation `BOOT_TIME = None`: plain / augmented / annotated assignment, `del`, `global`-less attribute stores
+    (`_psplatform.BOOT_TIME = …`), `globals()["BOOT_TIME"]`, `setattr(…, "BOOT_TIME", …)` — as "module:function"."""
+    out = []
+    pkg = snap.pkg
+    for fn in sorted(os.listdir(pkg)):
+        if not fn.endswith(".py") or fn in ("_pswindows.py", "_psosx.py", "_psbsd.py", "_pssunos.py", "_psaix.py"):
+            continue
+        tree = ast.parse(snap.source(fn), filename=fn)
+
+        def visit(node, where):
+            for ch in ast.iter_child_nodes(node):
+                w = where
+                if isinstance(ch, (ast.FunctionDef, ast.AsyncFunctionDef)):
+                    w = ch.name
+                hit = False
+                if isinstance(ch, (ast.Assign, ast.AugAssign, ast.AnnAssign, ast.Delete)):
+                    tg = ch.targets if isinstance(ch, (ast.Assign, ast.Delete)) else [ch.target]
+                    for t in tg:
+                        for x in ast.walk(t):
+                            if (isinstance(x, ast.Name) and x.id == "BOOT_TIME") or \
+                               (isinstance(x, ast.Attribute) and x.attr == "BOOT_TIME") or \
+                               (isinstance(x, ast.Subscript) and isinstance(x.slice, ast.Constant) and x.slice.value == "BOOT_TIME"):
+                                hit = True
+                if isinstance(ch, ast.Call) and extract.dotted(ch.func).split(".")[-1] in ("setattr", "__setattr__", "update", "__setitem__") \
+                        and any(isinstance(a, ast.Constant) and a.value == "BOOT_TIME" for a in ast.walk(ch)):
+                    hit = True
+                if hit:
+                    init_none = (where == "<module>" and fn == "_pslinux.py" and isinstance(ch, ast.Assign)
+                                 and isinstance(ch.value, ast.Constant) and ch.value.value is None)
+                    if not init_none and not (fn == "_pslinux.py" and where == "boot_time"):
+                        out.append("%s:%s" % (fn[:-3], where))
+                visit(ch, w)
+        visit(tree, "<module>")
+    return out
+
+
+def _create_boot(plat):
+    """how `_pslinux.Process.create_time` obtains the boot time it adds — TOTAL: a string describing the shape.
+    "or" = `BOOT_TIME or boot_time()` (truthiness: a cached 0.0 counts as unset), "isNotNone" = `BOOT_TIME if BOOT_TIME
+    is not None else boot_time()`, "fresh" = `boot_time()` only; the expression must FLOW INTO the returned value
+    (directly, or through one local name that is assigned once and used in the `return`) — otherwise "dead:<shape>"."""
     fn = extract.find_def(plat, "create_time", cls="Process")
-    for n in ast.walk(fn):
+
+    def shape(n):
         if isinstance(n, ast.BoolOp) and isinstance(n.op, ast.Or) and len(n.values) == 2 \
                 and extract.dotted(n.values[0]) == "BOOT_TIME" and extract.dotted(n.values[1]) == "boot_time()":
-            return True
-    if any(extract.dotted(n) == "boot_time()" for n in ast.walk(fn) if isinstance(n, ast.Call)):
-        return False
-    raise NotRecognised("create_time(): boot time expression not recognised")
+            return "or"
+        if isinstance(n, ast.IfExp) and extract.dotted(n.body) == "BOOT_TIME" and extract.dotted(n.orelse) == "boot_time()" \
+                and isinstance(n.test, ast.Compare) and len(n.test.ops) == 1 and isinstance(n.test.ops[0], ast.IsNot) \
+                and extract.dotted(n.test.left) == "BOOT_TIME" and isinstance(n.test.comparators[0], ast.Constant) \
+                and n.test.comparators[0].value is None:
+            return "isNotNone"
+        return None
+    rets = [n for n in ast.walk(fn) if isinstance(n, ast.Return) and n.value is not None]
+    if len(rets) != 1:
+        return "other:%d returns" % len(rets)
+    ret = rets[0]
+    names_in_ret = {x.id for x in ast.walk(ret.value) if isinstance(x, ast.Name)}
+    found = []
+    for n in ast.walk(fn):
+        sh = shape(n)
+        if sh:
+            live = any(x is n for x in ast.walk(ret.value))
+            if not live:
+                for st in ast.walk(fn):
+                    if isinstance(st, ast.Assign) and st.value is n and len(st.targets) == 1 and isinstance(st.targets[0], ast.Name):
+                        nm = st.targets[0].id
+                        stores = [x for x in ast.walk(fn) if isinstance(x, ast.Name) and x.id == nm and isinstance(x.ctx, ast.Store)]
+                        live = nm in names_in_ret and len(stores) == 1
+            found.append(sh if live else "dead:" + sh)
+    other_boot = [n for n in ast.walk(fn) if isinstance(n, ast.Call) and extract.dotted(n) == "boot_time()"]
+    if len(found) == 1 and len(other_boot) == 1:
+        return found[0]
+    if not found and other_boot:
+        return "fresh"
+    return "other:%s" % ",".join(found + ["boot_time()x%d" % len(other_boot)])
 
 
 def _neg_rejected_c(snap, init):
@@ -299,7 +427,10 @@ def _affinity_reset_mask(init):
     raise NotRecognised("cpu_affinity: `if not cpus: if LINUX: … range(N)` not recognised")
 
 
-def all_facts(snap, F):
+def all_facts(snap, F, skip=()):
+    if skip:
+        real_try_add = F.try_add
+        F = type("FactsView", (), {"try_add": staticmethod(lambda name, *a, **kw: None if name in skip else real_try_add(name, *a, **kw))})()
     init = extract.parse_module(snap, "__init__.py")
     plat = extract.parse_module(snap, "_pslinux.py")
     F.try_add("clockTicks", "Nat", lambda: extract.lean_nat(_clock_ticks(plat)),
@@ -308,13 +439,22 @@ def all_facts(snap, F):
               "Process._raise_if_pid_reused raises NoSuchProcess when self._gone is set")
     F.try_add("bootWriteOnce", "Bool", lambda: extract.lean_bool(_boot_write_once(plat)),
               "every assignment to BOOT_TIME in _pslinux.boot_time() sits under `if BOOT_TIME is None`")
-    F.try_add("createUsesCache", "Bool", lambda: extract.lean_bool(_create_uses_cache(plat)),
-              "_pslinux.Process.create_time computes `BOOT_TIME or boot_time()`")
+    F.try_add("bootStoresElsewhere", "List String",
+              lambda: extract.lean_list(_boot_stores_elsewhere(snap), extract.lean_str),
+              "stores to BOOT_TIME anywhere in the package outside _pslinux.boot_time() and the `BOOT_TIME = None` initialisation (module:function)")
+    F.try_add("createBoot", "String", lambda: extract.lean_str(_create_boot(plat)),
+              "how _pslinux.Process.create_time gets the boot time that flows into its result: or | isNotNone | fresh | dead:… | other:…")
+    F.try_add("windowCalls", "List String", lambda: extract.lean_list(_window_calls(init), extract.lean_str),
+              "calls Process._send_signal makes between the reuse guard and os.kill (the check-then-kill window)")
+    F.try_add("nativePidArgs", "List (String × List String)",
+              lambda: extract.lean_list([extract.lean_pair(extract.lean_str(m), extract.lean_list(a, extract.lean_str))
+                                         for m, a in _native_pid_args(plat)]),
+              "platform setter -> the PID argument of every call site of its native entry point (setpriority, proc_ioprio_set, proc_cpu_affinity_set, prlimit)")
     F.try_add("guardedMethods", "List String",
               lambda: extract.lean_list(_guarded_methods(init), extract.lean_str),
               "public Process methods whose OS effect is dominated by self._raise_if_pid_reused()")
     F.try_add("signalMap", "List (String × Nat)",
-              lambda: extract.lean_list([extract.lean_pair(extract.lean_str(m), extract.lean_nat(_signal_of(init, m)[1]))
+              lambda: extract.lean_list([extract.lean_pair(extract.lean_str(m), extract.lean_nat(_quiet(lambda: _signal_of(init, m)[1], 0)))
                                          for m in SIGNAL_METHODS]),
               "method -> number of the signal.SIGxxx constant it passes to _send_signal")
     F.try_add("pid0Refused", "Bool",
